@@ -580,14 +580,25 @@ func inlineValue(p *core.Program, fi *core.FuncInfo, e ast.Expr, depth int) ast.
 // sender both hand their records to that queue and wait on it with a timeout, so a queue that drops,
 // reorders or never times out breaks them just the same.
 func importQueueRules(p *core.Program, r *core.Report, rule string) {
+	importQueueRulesSel(p, r, rule, []string{"C11.timeout", "C11.wait", "C11.capacity", "C11.signal", "C11.fifo"}, false)
+}
+
+// importQueueRulesSel: the selected C11 rules, on the single queue or on both queue types.
+func importQueueRulesSel(p *core.Program, r *core.Report, rule string, which []string, both bool) {
 	sub := core.NewReport("C11", r.Tier)
 	sub.Config = r.Config
 	runC11(p, sub)
 	for _, ob := range sub.Obs {
-		if !strings.Contains(ob.Construct, "RequestQueue.") || strings.Contains(ob.Construct, "zzCanary") {
+		if strings.Contains(ob.Construct, "zzCanary") || !(strings.Contains(ob.Construct, "RequestQueue.") || (both && strings.Contains(ob.Construct, "RequestDoubleQueue."))) {
 			continue
 		}
-		if !(strings.HasPrefix(ob.Rule, "C11.timeout") || strings.HasPrefix(ob.Rule, "C11.wait") || strings.HasPrefix(ob.Rule, "C11.capacity") || strings.HasPrefix(ob.Rule, "C11.signal") || strings.HasPrefix(ob.Rule, "C11.fifo")) {
+		sel := false
+		for _, w := range which {
+			if strings.HasPrefix(ob.Rule, w) {
+				sel = true
+			}
+		}
+		if !sel {
 			continue
 		}
 		c := strings.TrimPrefix(ob.Rule, "C11.") + ": " + ob.Construct
